@@ -413,7 +413,9 @@ func (fc *funcContext) translateExpr(expr ast.Expr) *expression {
 				}
 				return fc.formatExpr("%e / %e", e.X, e.Y)
 			case token.REM:
-				return fc.formatExpr(`(%1s = %2e %% %3e, %1s === %1s ? %1s : $throwRuntimeError("integer divide by zero"))`, fc.newLocalVariable("_r"), e.X, e.Y)
+				// fixNumber normalises the negative zero JavaScript yields for a
+				// zero remainder of a negative dividend.
+				return fc.fixNumber(fc.formatExpr(`(%1s = %2e %% %3e, %1s === %1s ? %1s : $throwRuntimeError("integer divide by zero"))`, fc.newLocalVariable("_r"), e.X, e.Y), basic)
 			case token.SHL, token.SHR:
 				op := e.Op.String()
 				if e.Op == token.SHR && isUnsigned(basic) {
